@@ -35,6 +35,9 @@ func main() {
 	if id == "eval" {
 		os.Exit(evalCmd(flag.Args()[1:]))
 	}
+	if id == "selftest" {
+		os.Exit(selftestCmd())
+	}
 	fn, ok := checks[id]
 	if !ok {
 		fmt.Fprintf(os.Stderr, "vcheck: unknown check %q\n", id)
